@@ -1,7 +1,7 @@
 #!/bin/bash
 # Run every registered check at several seeds on the current /repo tree; print anything that is not "held".
 # usage: tools/seeds.sh <tier> <seed>...
-cd /verif
+cd "$(dirname "$0")/.."
 tier=$1; shift
 ./check C01 quick >/dev/null 2>&1   # make sure the binaries are current
 ( cd engine-sdk && cargo build --release --offline >/dev/null 2>&1 )
